@@ -186,7 +186,7 @@ def sweep_units(tier):
     return out
 
 
-def units(tier, seed, nchunks=128, hist_depth=None, delim_in_prefix=False, hook=False):
+def units(tier, seed, nchunks=128, hist_depth=None, delim_in_prefix=False, hook=False, shared_records=False):
     cfgs = configurations(tier)
     out = [{"tier": tier, "cfgs": [recs_to_json(c) for c in ch]} for ch in chunks(cfgs, nchunks)]
     out.extend(sweep_units(tier))
@@ -198,6 +198,13 @@ def units(tier, seed, nchunks=128, hist_depth=None, delim_in_prefix=False, hook=
     out.append({"tier": tier, "cfgs": [recs_to_json(c) for c in small], "delims": EXOTIC_DELIMS, "qlen": 2})
     if delim_in_prefix:
         out.append({"tier": tier, "cfgs": [recs_to_json(c) for c in dip_configs()], "delims": DELIMS})
+    if shared_records:
+        # states in which the records list and the lookup structures legitimately differ: two converters built from the same
+        # Record objects / a shallow copy, one of which learns something later (only for checks whose oracle does not need
+        # the records list to be authoritative, i.e. C08's mode matrix)
+        sub = [c for i, c in enumerate(cfgs) if i % 9 == 4][:400]
+        for ch in chunks(sub, 8):
+            out.append({"tier": tier, "cfgs": [recs_to_json(c) for c in ch], "delims": [":", "/"], "mode": "shared-records", "qlen": 2})
     if hook:
         # a subclass using the documented identifier hook, on a subset of the configurations
         sub = [c for i, c in enumerate(cfgs) if i % 9 == 0][:400]
@@ -325,6 +332,20 @@ def run_case(check_config, case, ctx=None):
                 cur_model = Model(recs, d, hook=ident_hook)
             elif mode == "copies":
                 conv, inputs = build_copies(recs, d)
+            elif mode == "shared-records":
+                import copy as _copy
+
+                rs = [to_record(r) for r in recs]
+                conv, other = Converter(rs, delimiter=d), Converter(rs, delimiter=d)
+                shallow = _copy.copy(conv)
+                first = recs[0]
+                other.add_record(Record(prefix="zs9", uri_prefix=first.uri_prefix), merge=True)
+                other.add_record(Record(prefix=first.prefix, uri_prefix="zs9/"), merge=True)
+                shallow.add_prefix("zt9", "zt9/", prefix_synonyms=["zt9s"])
+                shallow.add_record(Record(prefix="zu9", uri_prefix=first.uri_prefix), merge=True)
+                _EXTRA["p"] = ["zs9", "zt9", "zt9s", "zu9"]
+                Q = Q + ["zs9" + d + "1", "zs9/1", "zt9" + d + "1", "zt9/1", "zt9s" + d + "1", "zu9" + d + "1"]
+                inputs = [(other, cur_model), (shallow, cur_model)]
             elif mode == "merge-late":
                 conv = build_merge_late(recs, d)
             elif mode == "chain-of-singletons":
@@ -384,6 +405,8 @@ def run_unit_with(check_config, prop, unit, ctx):
             if unit.get("hook"):
                 case["hook"] = True
                 case["mode"] = "subclass-hook"
+            if unit.get("mode"):
+                case["mode"] = unit["mode"]
             fails = run_case(check_config, case, ctx)
             if len(recs) >= 2:
                 ctx.sample(case)
